@@ -87,8 +87,20 @@ Apply(v, op) ==
               [] v.var = "Str" -> IF op.limit >= 1 THEN Done("Str", v.items) ELSE Done("Strs", <<>>)
               [] OTHER -> Done(v.var, SubSeq(v.items, 1, MinI(op.limit, Len(v.items)))))
 
-(* truncate(0) of a single-string value is not pinned down by the documentation *)
-OpUndecided(v, op) == op.o = "trunc" /\ op.limit = 0 /\ v.var = "Str"
+(* Every operation on every variant is decided.  In particular truncate(0) of a single-string *)
+(* value (one item, see multiplicity) leaves a textual value with no items, as documented      *)
+(* ("shorten this value ... to fit the given limit") and as the code does since the fix        *)
+(* "truncate(0) also clears a single string value".                                            *)
+OpUndecided(v, op) == FALSE
+
+(* observations the documentation ties to the items: the number of items and the list           *)
+(* conversion of the value (one result per item, no items => empty list)                       *)
+Mult(v) == Len(v.items)
+HasWildcard(v) == \E i \in 1..Len(v.items) :
+                    \/ (v.var \in TextVars /\ v.items[i] = AnyText)
+                    \/ (v.var \in IntVars /\ v.items[i] = AnyN)
+                    \/ (v.var \in FloatVars /\ v.items[i].k = "any")
+ListConv(v) == ToMultiInt(v, "i64")
 
 (* comparison of the model value with what the code holds *)
 VarClass(var) == IF var \in TextVars THEN "text" ELSE var
